@@ -258,7 +258,7 @@ func (p *Prog) walk(f *Func, b *cfg.Block, st *pstate, out *[]*Path) {
 			p.walkSwitchCase(f, b, cond, st, out)
 			return
 		}
-		ct := st.ev.eval(cond)
+		ct := boolSimplify(st.ev.eval(cond))
 		if b.Kind == cfg.KindForLoop {
 			// zero or one iteration; loop conditions (iterator.Valid()) are not facts
 			if st.visits[b.Index] >= 2 {
